@@ -364,7 +364,7 @@ def r4_policy_filter(run):
         tgt = nd.ast.targets[0].id
         after = [s for s in stages if nd.id in cfg.reachable_from(s.id) and
                  unparse(s.ast.targets[0]) == tgt]
-        ok = not after or Q("%s is None" % tgt) in facts(cfg, nd.id)
+        ok = not after or Q("%s is None" % tgt) in facts(cfg, nd.id, True)
         run.check(ok, "R4", fi.qual + "::reset-only-when-no-stage-ran::" +
                   norm_text(nd.ast),
                   "the unfiltered copy is taken only when no stage produced a "
